@@ -281,6 +281,17 @@ def stages(which):
 
         out.append(Stage("EAS.__call__[pressure-map cloud]", lambda: EAS(cm), opt_call_cloud, g_opt, sizes=(17, 101)))
 
+        def g_opt_faint(rng, n):
+            # showers below the critical energy (the kernel has nothing to develop) mixed with ordinary
+            # ones, every event at its own site
+            b_, a_, e_, la_, lo_ = g_opt(rng, n)
+            e_[rng.random(n) < 0.3] = 1e-10
+            if n > 2:
+                e_[1] = 5e-10
+            return b_, a_, e_, la_, lo_
+
+        out.append(Stage("EAS.__call__[pressure-map cloud, sub-critical showers]", lambda: EAS(cm), opt_call_cloud, g_opt_faint, sizes=(2, 17, 40)))
+
         def g_opt_inwin(rng, n):
             # every decay inside the altitude window (nothing for the stage to mask), longitudes in
             # the 0..360 deg convention
@@ -395,6 +406,6 @@ def run(ctx):
     if len(ctx.obs.get("stages_driven", [])) < 17:
         ctx.inconclusive_because(f"only {len(ctx.obs.get('stages_driven', []))} of 17 stage adapters were driven")
     return ctx.finish(
-        rule="19 stage adapters (geometry throw and positions, target-mode throw, exit probability for 3 table versions, tau energy with explicit u for scattered energies and for an energy scan in blocks, Taus.__call__, decay altitude with explicit and internal numbers, both spectra, optical signal with and without a pressure-map cloud, radio field for two detector altitudes, SNR) x batch sizes {1,2,17,8191,8192,8193,20000} (kernel stages {1,2,17,101,250}) x {repeat, seeded permutations through reused buffers and fresh arrays, all split points for n<=17 / seeded ones, single-event rows}; batches mix every mask class of each stage; a case is a distinct (stage, batch)",
+        rule="20 stage adapters (geometry throw and positions, target-mode throw, exit probability for 3 table versions, tau energy with explicit u for scattered energies and for an energy scan in blocks, Taus.__call__, decay altitude with explicit and internal numbers, both spectra, optical signal with and without a pressure-map cloud, radio field for two detector altitudes, SNR) x batch sizes {1,2,17,8191,8192,8193,20000} (kernel stages {1,2,17,101,250}) x {repeat, seeded permutations through reused buffers and fresh arrays, all split points for n<=17 / seeded ones, single-event rows}; batches mix every mask class of each stage; a case is a distinct (stage, batch)",
         assumptions=["bit-for-bit comparison (numpy's vector and tail loops agree per element on this machine for the routines used)", "empty halves are not demanded (the pipeline never calls a stage with an empty batch)", "stages without an explicit-u parameter are driven with a constant RNG stub, so no draw order is assumed"],
     )
